@@ -10,7 +10,7 @@ from ..tfl import read
 
 EXACT = {"CONV_2D", "DEPTHWISE_CONV_2D", "FULLY_CONNECTED", "MAX_POOL_2D", "RELU", "RELU6", "RELU_N1_TO_1", "ADD", "SUB", "MUL", "MINIMUM", "MAXIMUM",
          "QUANTIZE", "RESHAPE", "CONCATENATION", "SPLIT", "STRIDED_SLICE", "SLICE", "PAD", "SQUEEZE", "EXPAND_DIMS", "DEPTH_TO_SPACE", "NEG", "CUSTOM",
-         "LEAKY_RELU", "ABS", "TRANSPOSE", "RESIZE_NEAREST_NEIGHBOR"}
+         "LEAKY_RELU", "ABS", "TRANSPOSE", "RESIZE_NEAREST_NEIGHBOR", "TRANSPOSE_CONV"}
 APPROX = {"AVERAGE_POOL_2D", "RESIZE_BILINEAR", "LOGISTIC", "TANH", "HARD_SWISH", "MEAN", "SOFTMAX"}
 # LEAKY_RELU is implemented by Vela with the reference's own integer arithmetic; counted exact
 
@@ -132,6 +132,35 @@ def conv2d(x, w, bias, xq, wq, yq, opts, dtype, depthwise=False, dm=1, float_pro
     return np.clip(out, lo, hi)
 
 
+def transpose_conv(x, w, bias, xq, wq, yq, opts, dtype, out_shape):
+    """TFLite TRANSPOSE_CONV (w is OHWI): out[oy, ox, oc] += in[iy, ix, ic] * w[oc, ky, kx, ic] with oy = iy * stride - pad + ky.
+    Evaluated as a stride-1 VALID correlation of the zero-inserted, padded input with the spatially flipped kernel; inserted and padded
+    positions hold the input zero point (they contribute nothing)."""
+    n, h, wd, c = x.shape
+    sy, sx = opts["StrideH"], opts["StrideW"]
+    co, kh, kw = w.shape[0], w.shape[1], w.shape[2]
+    oh, ow = int(out_shape[1]), int(out_shape[2])
+
+    def pads(insz, k, s_, outsz):
+        total = max((insz - 1) * s_ + k - outsz, 0) if opts["Padding"] == 0 else 0
+        before = total // 2
+        up = (insz - 1) * s_ + 1
+        lo = k - 1 - before
+        hi = outsz + k - 1 - lo - up
+        return lo, hi, up
+
+    lo_y, hi_y, up_h = pads(h, kh, sy, oh)
+    lo_x, hi_x, up_w = pads(wd, kw, sx, ow)
+    if min(lo_y, hi_y, lo_x, hi_x) < 0:
+        raise Unsupported("transpose convolution geometry")
+    zp = int(xq["zp"][0])
+    xu = np.full((n, up_h + lo_y + hi_y, up_w + lo_x + hi_x, c), zp, dtype=np.int64)
+    xu[:, lo_y:lo_y + up_h:sy, lo_x:lo_x + up_w:sx, :] = x
+    wf = np.ascontiguousarray(w[:, ::-1, ::-1, :])
+    o2 = dict(StrideH=1, StrideW=1, Padding=1, FusedActivationFunction=opts.get("FusedActivationFunction", 0))
+    return conv2d(xu, wf, bias, xq, wq, yq, o2, dtype)
+
+
 def pool(x, opts, dtype, kind, yq):
     n, h, wd, c = x.shape
     kh, kw, sy, sx = opts["FilterHeight"], opts["FilterWidth"], opts["StrideH"], opts["StrideW"]
@@ -203,6 +232,9 @@ def eval_op(op, ins, t_in, t_out):
     yq = t_out[0]["quant"]
     if name == "CONV_2D":
         return [conv2d(ins[0], ins[1], ins[2] if len(ins) > 2 else None, t_in[0]["quant"], t_in[1]["quant"], yq, o, dt)]
+    if name == "TRANSPOSE_CONV":
+        # operands: output shape, weights (OHWI), input, optional bias
+        return [transpose_conv(ins[2], ins[1], ins[3] if len(ins) > 3 and ins[3] is not None else None, t_in[2]["quant"], t_in[1]["quant"], yq, o, dt, ins[0].reshape(-1))]
     if name == "DEPTHWISE_CONV_2D":
         return [conv2d(ins[0], ins[1], ins[2] if len(ins) > 2 else None, t_in[0]["quant"], t_in[1]["quant"], yq, o, dt, depthwise=True, dm=o.get("DepthMultiplier", 1))]
     if name == "FULLY_CONNECTED":
